@@ -656,7 +656,7 @@ def check_usage_scan(rep, prog, rid):
                 label = 'flags required=%s, enforcement=%s, capable=%s' % (flags, require, [c for c in comps if caps[c]])
                 for s in outs:
                     ys = [render(y) for y in s.yields]
-                    if any(y not in comps for y in ys):
+                    if any(y not in comps and y != 'None' for y in ys):      # None is no component at all: judged below
                         raise AnalysisError('KeyAction.usage yields %s under %s: not one of the scanned components' % (ys, label))
                     und = [f[0] for f in s.facts]
                     if not flags:
@@ -674,7 +674,7 @@ def check_usage_scan(rep, prog, rid):
                     else:
                         if s.raised is not None:
                             verdicts['refuse'].append((label, ys, s.raised, und))
-                        elif len(ys) != 1:
+                        elif len(ys) != 1 or ys[0] not in comps:
                             verdicts['yield'].append((label, ys, s.raised, und))
     if unknown and not wrong:
         raise AnalysisError('KeyAction.usage: capability test not understood: %s' % unknown[:2])
